@@ -3,6 +3,7 @@
   that is not pending, and its bytes are in the data files") and what sync() does to it.
 -/
 import GocoinV.Proofs.C19Sync
+import GocoinV.Proofs.C19Effects
 namespace GocoinV.Proofs.C19
 open GocoinV GocoinV.Qdb GocoinV.QdbSpec
 
@@ -106,6 +107,38 @@ theorem logWritten_post (d : DB) (bidx : Bytes) (E : List LogEntry) (hs : LogSta
     show (((d.fs.apply .createLog).apply (.appendLog (le32 d.verSeq))).apply (.appendLog bidx)).log = _
     unfold FS.apply
     simp [hE, encLog]
+
+/-! ### the effects of sync(), as a list -/
+
+def cdEffs (db : DB) : List Effect :=
+  if db.datOpen then [] else [.createDat db.dataSeq, .writeDat db.dataSeq 0 (le32 db.dataSeq)]
+
+def clEffs (db : DB) : List Effect :=
+  if db.logOpen then [] else [.createLog, .appendLog (le32 db.verSeq)]
+
+/-- all effects of sync() up to and including the Write to the index log -/
+def syncEffs (db : DB) : List Effect :=
+  cdEffs db ++ (planW db.dataSeq db.index db.pending (checkDat db).lastPos ++
+    (clEffs db ++ [.appendLog (encLog (syncPlan db.dataSeq db.index db.pending (checkDat db).lastPos).2.1)]))
+
+theorem checkDat_effs (db : DB) : ∃ es, (checkDat db).effs = db.effs ++ es ∧ es.map (·.2) = cdEffs db := by
+  unfold checkDat cdEffs
+  cases h : db.datOpen with
+  | true => exact ⟨[], by simp, by simp⟩
+  | false =>
+    simp only [Bool.false_eq_true, ↓reduceIte]
+    exact ⟨[("qdb.checklogfile:created", .createDat db.dataSeq),
+      ("qdb.checklogfile:header", .writeDat db.dataSeq 0 (le32 db.dataSeq))], by simp [emit], rfl⟩
+
+theorem logWritten_effs (d : DB) (bidx : Bytes) :
+    ∃ es, (logWritten d bidx).effs = d.effs ++ es ∧ es.map (·.2) = clEffs d ++ [.appendLog bidx] := by
+  unfold logWritten checkLog clEffs
+  cases h : d.logOpen with
+  | true => exact ⟨[("qdb.sync:log-written", .appendLog bidx)], by simp [emit], by simp⟩
+  | false =>
+    simp only [Bool.false_eq_true, ↓reduceIte]
+    exact ⟨[("qdb.idx.checklogfile:created", .createLog), ("qdb.idx.checklogfile:header", .appendLog (le32 d.verSeq)),
+      ("qdb.sync:log-written", .appendLog bidx)], by simp [emit], rfl⟩
 
 /-! ### the invariant -/
 
@@ -239,7 +272,10 @@ theorem sync_logWritten (db : DB) (inv : DiskInv db) (hp : db.pending.isEmpty = 
     (hsmall : (checkDat db).lastPos +
       (syncPlan db.dataSeq db.index db.pending (checkDat db).lastPos).2.2.length < 2^32) :
     ∃ L, sync db = (if L.extra > L.opts.forcedPerc * L.need / 100 then defrag L else L) ∧
-      DiskInv L ∧ absv L = absv db ∧ L.pending = [] ∧ L.opts = db.opts := by
+      DiskInv L ∧ absv L = absv db ∧ L.pending = [] ∧ L.opts = db.opts ∧
+      (∃ es, L.effs = db.effs ++ es ∧ es.map (·.2) = syncEffs db) ∧ L.index = 
+        (syncPlan db.dataSeq db.index db.pending (checkDat db).lastPos).1 ∧
+      L.fs = db.fs.applyAll (syncEffs db) := by
   obtain ⟨c_open, c_same, c_new, c_i0, c_i1, c_log, c_ds, c_vs, c_lo, c_pe, c_ix⟩ := checkDat_post db
   -- the data file after checklogfile
   have hfile0 : ∃ f0, dlookup db.dataSeq (checkDat db).fs.dats = some f0 ∧ (checkDat db).lastPos = f0.length ∧
@@ -254,10 +290,34 @@ theorem sync_logWritten (db : DB) (inv : DiskInv db) (hp : db.pending.isEmpty = 
       exact ⟨le32 db.dataSeq, h1, by rw [h2]; simp, by simp, fun h => by simp at h⟩
   obtain ⟨f0, hf0, hlp0, hf0len, hf0old⟩ := hfile0
   have hc0 : Cached (checkDat db) := Cached.of_frame (frame_checkDat db) inv.cached
-  obtain ⟨d', hfold, hidx', hfile', hlp', hrest, _⟩ :=
+  obtain ⟨d', hfold, hidx', hfile', hlp', hrest, ws, hws1, hws2⟩ :=
     syncFold_plan db.pending (checkDat db) [] f0 hc0 (by rw [c_ds]; exact hf0) hlp0
-  rw [c_ds, c_ix] at hfold hidx' hfile' hlp'
+  rw [c_ds, c_ix] at hfold hidx' hfile' hlp' hws2
   rw [c_ds] at hrest
+  obtain ⟨es1, he1a, he1b⟩ := checkDat_effs db
+  have hEffs : ∃ es, (logWritten d' (encLog (syncPlan db.dataSeq db.index db.pending (checkDat db).lastPos).2.1)).effs
+      = db.effs ++ es ∧ es.map (·.2) = syncEffs db := by
+    obtain ⟨es3, he3a, he3b⟩ := logWritten_effs d' (encLog (syncPlan db.dataSeq db.index db.pending (checkDat db).lastPos).2.1)
+    refine ⟨es1 ++ (ws ++ es3), by rw [he3a, hws1, he1a]; simp [List.append_assoc], ?_⟩
+    have hcl : clEffs d' = clEffs db := by
+      unfold syncRest at hrest
+      simp only [Prod.mk.injEq] at hrest
+      unfold clEffs
+      rw [hrest.2.2.2.2.2.2.2.2.1, hrest.2.2.2.2.2.2.2.1, c_lo, c_vs]
+    unfold syncEffs
+    rw [List.map_append, List.map_append, he1b, hws2, he3b, hcl]
+  have hIdxL : d'.index = (syncPlan db.dataSeq db.index db.pending (checkDat db).lastPos).1 := hidx'
+  have hFsL : (logWritten d' (encLog (syncPlan db.dataSeq db.index db.pending (checkDat db).lastPos).2.1)).fs =
+      db.fs.applyAll (syncEffs db) := by
+    have r1 := replays_checkDat db
+    have r2 := replays_syncFold db.pending (checkDat db, [])
+    rw [hfold] at r2
+    have r3 : Replays (logWritten d' (encLog (syncPlan db.dataSeq db.index db.pending (checkDat db).lastPos).2.1)) d' :=
+      Replays.trans (Replays.of_eq rfl rfl) ((replays_emit _ _ _).trans (replays_checkLog d'))
+    obtain ⟨es', h1, h2⟩ := (r3.trans r2).trans r1
+    obtain ⟨es, h3, h4⟩ := hEffs
+    have : es' = es := List.append_cancel_left (h1.symm.trans h3)
+    rw [h2, this, h4]
   simp only [List.nil_append] at hfold
   -- name the plan
   generalize hplan : syncPlan db.dataSeq db.index db.pending (checkDat db).lastPos = plan at *
@@ -279,7 +339,7 @@ theorem sync_logWritten (db : DB) (inv : DiskInv db) (hp : db.pending.isEmpty = 
   obtain ⟨l_log, l_i0, l_i1, l_dats, l_lo, l_pe, l_ix, l_ds, l_vs, l_lp, l_do, l_f, l_vol, l_opts⟩ :=
     logWritten_post d' (encLog plan.2.1) E hst'
       (by rw [hlo', hlogd']; exact inv.log1) (by rw [hlo', hlogd']; exact inv.log2)
-  refine ⟨logWritten d' (encLog plan.2.1), ?_, ?_, ?_, l_pe, ?_⟩
+  refine ⟨logWritten d' (encLog plan.2.1), ?_, ?_, ?_, l_pe, ?_, hEffs, l_ix.trans hIdxL, hFsL⟩
   · -- sync db unfolds to this
     unfold sync
     rw [if_neg (by simp [inv.nv]), if_neg (by simp [hp])]
